@@ -1440,16 +1440,16 @@ where
                                 match result {
                                     Err(EventHandlerError::StopInstructed) => break Ok(()),
                                     Err(
-                                        e @ (EventHandlerError::RuntimeError(_)
-                                        | EventHandlerError::SteppedAfterComplete),
+                                        error @ (EventHandlerError::BadCommand(_)
+                                        | EventHandlerError::IncompleteCommand),
                                     ) => {
-                                        break Err(AgentTaskError::UserCodeError(Box::new(e)));
-                                    }
-                                    Err(error) => {
                                         debug!(
                                             error = %error,
                                             "Incoming frame was rejected by the item."
                                         );
+                                    }
+                                    Err(e) => {
+                                        break Err(AgentTaskError::UserCodeError(Box::new(e)));
                                     }
                                     _ => check_cmds(
                                         &mut command_buffer,
@@ -1495,16 +1495,16 @@ where
                                 match result {
                                     Err(EventHandlerError::StopInstructed) => break Ok(()),
                                     Err(
-                                        e @ (EventHandlerError::RuntimeError(_)
-                                        | EventHandlerError::SteppedAfterComplete),
+                                        error @ (EventHandlerError::BadCommand(_)
+                                        | EventHandlerError::IncompleteCommand),
                                     ) => {
-                                        break Err(AgentTaskError::UserCodeError(Box::new(e)));
-                                    }
-                                    Err(error) => {
                                         debug!(
                                             error = %error,
                                             "Incoming frame was rejected by the item."
                                         );
+                                    }
+                                    Err(e) => {
+                                        break Err(AgentTaskError::UserCodeError(Box::new(e)));
                                     }
                                     _ => check_cmds(
                                         &mut command_buffer,
